@@ -3,6 +3,12 @@
 import json, sys
 pid, tag = sys.argv[1], (sys.argv[2] if len(sys.argv) > 2 else "a")
 avoid = sys.argv[3] if len(sys.argv) > 3 else ""
+if avoid == "auto":
+    import glob
+    items = []
+    for f in sorted(glob.glob("/verif/seeded/%s-*/meta.json" % pid)):
+        items.append(json.load(open(f))["needs_to_manifest"])
+    avoid = " ;; ".join("(%d) %s" % (i + 1, t) for i, t in enumerate(items))
 p = [json.loads(l) for l in open("/verif/properties.jsonl") if json.loads(l)["id"] == pid][0]
 wt = "/tmp/seed-%s%s" % (pid.lower(), tag)
 print(f"""You are helping to evaluate a verification tool by seeding a realistic defect into a library. Work ONLY inside the scratch git worktree {wt} (a checkout of the Python library SasView/sasmodels; create it first with: git -C /repo worktree add --detach {wt} HEAD). Never modify /repo itself and do not read anything under /verif.
